@@ -16,6 +16,35 @@ def DType.isInt : DType → Bool
   | .int8 | .int16 | .int32 | .uint8 | .uint16 | .uint32 => true
   | _ => false
 
+/-- value range of the integer dtypes (bool as {0, 1}) -/
+def DType.intRange : DType → Option (Int × Int)
+  | .bool => some (0, 1)
+  | .int8 => some (-128, 127) | .int16 => some (-32768, 32767) | .int32 => some (-2147483648, 2147483647)
+  | .uint8 => some (0, 255) | .uint16 => some (0, 65535) | .uint32 => some (0, 4294967295)
+  | .float16 | .float32 => none
+
+/-- largest finite value of the float dtypes: 65504 and (2²⁴ − 1)·2¹⁰⁴ -/
+def DType.maxFinite : DType → Rat
+  | .float16 => 65504
+  | .float32 => 340282346638528859811704183484516925440
+  | _ => 0
+
+/-- is the rational a value of the dtype?  Integer dtypes and bool: an integer inside the range.  Floats: a finite
+magnitude (the mantissa is NOT modelled: stored bounds and values come from real arrays of that dtype) -/
+def DType.fits (d : DType) (x : Rat) : Bool :=
+  match d.intRange with
+  | some (lo, hi) => x.den == 1 && decide (lo ≤ x.num) && decide (x.num ≤ hi)
+  | none => decide (-d.maxFinite ≤ x) && decide (x ≤ d.maxFinite)
+
+/-- `jnp.asarray(x, dtype)` for a Python int / an int32 array element `x` and an integer dtype: two's-complement
+wrap-around (no error, no saturation); bool: non-zero -/
+def DType.wrap (d : DType) (x : Int) : Int :=
+  match d with
+  | .bool => if x = 0 then 0 else 1
+  | _ => match d.intRange with
+    | some (lo, hi) => (x - lo) % (hi - lo + 1) + lo
+    | none => x
+
 def prod (sh : List Nat) : Nat := sh.foldl (· * ·) 1
 
 structure Arr where
@@ -79,8 +108,8 @@ def upper : Leaf → Option (List Rat)
   | discrete n _ _ => some [(((n : Int) - 1 : Int) : Rat)]
   | multiDiscrete _ nv _ _ => some (nv.map (fun (n : Nat) => ((((n : Int) - 1 : Int)) : Rat)))
 
-/-- what the constructors enforce -/
-def WF : Leaf → Bool
+/-- the structural checks of the constructors: bounds broadcastable and ordered, counts positive, integer dtype -/
+def WF0 : Leaf → Bool
   | array .. => true
   | l@(bounded s _ _ ms m xs x) =>
     m.length == prod ms && x.length == prod xs && broadcastable ms s && broadcastable xs s &&
@@ -89,6 +118,32 @@ def WF : Leaf → Bool
      | _, _ => false)
   | discrete n d _ => n > 0 && d.isInt
   | multiDiscrete s nv d _ => nv.length == prod s && nv.all (· > 0) && d.isInt
+
+/-- the declared bounds are values of the declared dtype: `num_values − 1` (the largest valid value) and every
+stored bound is representable, so the conversion `jnp.asarray(bound, dtype)` of the constructor changed nothing -/
+def fitsDType : Leaf → Bool
+  | array .. => true
+  | bounded _ d _ _ m _ x => m.all d.fits && x.all d.fits
+  | discrete n d _ => d.fits ((((n : Int) - 1 : Int)) : Rat)
+  | multiDiscrete _ nv d _ => nv.all (fun (n : Nat) => d.fits ((((n : Int) - 1 : Int)) : Rat))
+
+/-- well-formed spec = what a constructor call within its contract produces: the structural checks pass AND the
+bounds are values of the dtype.  (The real `DiscreteArray` / `MultiDiscreteArray` constructors also ACCEPT some
+counts beyond the dtype — see `ctorAccepts` — and then report a `num_values` that disagrees with the bound they
+validate against; such specs are not well-formed here.) -/
+def WF (l : Leaf) : Bool := l.WF0 && l.fitsDType
+
+/-- the bound `DiscreteArray(n, dtype)` really stores: `jnp.asarray(n - 1, dtype)` wraps around -/
+def storedMax (d : DType) (n : Nat) : Int := d.wrap ((n : Int) - 1)
+
+/-- does the real constructor return (rather than raise)?  For the discrete kinds the only range-related check is
+`minimum ≤ maximum` AFTER the wrap-around conversion: `DiscreteArray(200, int8)` raises (199 ↦ −57 < 0) but
+`DiscreteArray(300, int8)` is accepted (299 ↦ 43).  (Python ints up to 2⁶³ − 1.) -/
+def ctorAccepts : Leaf → Bool
+  | discrete n d _ => n > 0 && d.isInt && decide (0 ≤ storedMax d n)
+  | multiDiscrete s nv d _ =>
+    nv.length == prod s && nv.all (· > 0) && d.isInt && nv.all (fun n => decide (0 ≤ storedMax d n))
+  | l => l.WF
 
 /-- `validate`: shape and dtype exactly, every element within the inclusive bounds -/
 def valid (l : Leaf) (v : Arr) : Bool :=
@@ -152,8 +207,89 @@ re-run (so the result must be well-formed); `none` = the constructor raises -/
 def replace (l : Leaf) (kws : List Kw) : Option Leaf :=
   if kws.all (accepts l) && (kws.foldl apply1 l).WF then some (kws.foldl apply1 l) else none
 
-/-- `__reduce__` then reconstruction: `cls(*args)` with the stored attributes -/
-def unreduce (l : Leaf) : Leaf := l
+/-! #### `==` between specs of DIFFERENT classes.  Python tries the reflected `__eq__` of the other operand when the
+first returns `NotImplemented` (and the subclass's first when one class derives from the other):
+`Array ⊃ BoundedArray ⊃ {DiscreteArray, MultiDiscreteArray}`.  So `Array.__eq__` decides whenever one side is a plain
+`Array`, `BoundedArray.__eq__` whenever one side is a plain `BoundedArray` (and the other below it), and a
+`DiscreteArray` never equals a `MultiDiscreteArray` (both return `NotImplemented`, identity decides). -/
+
+inductive Kind | array | bounded | discrete | multi
+  deriving DecidableEq, Repr
+
+def kind : Leaf → Kind
+  | array .. => .array | bounded .. => .bounded | discrete .. => .discrete | multiDiscrete .. => .multi
+
+/-- `Array.__eq__` on any two leaf specs: shape, dtype, name -/
+def arrayEq (a b : Leaf) : Bool := a.shape == b.shape && a.dtype == b.dtype && a.name == b.name
+/-- `BoundedArray.__eq__` on any two bounded specs: also the bounds -/
+def boundedEq (a b : Leaf) : Bool :=
+  a.shape == b.shape && a.dtype == b.dtype && a.name == b.name && a.lower == b.lower && a.upper == b.upper
+
+/-- Python's `a == b` for any two leaf specs -/
+def pyEq (a b : Leaf) : Bool :=
+  match a.kind, b.kind with
+  | .array, _ => arrayEq a b
+  | _, .array => arrayEq a b
+  | .bounded, _ => boundedEq a b
+  | _, .bounded => boundedEq a b
+  | .discrete, .discrete => a.beq b
+  | .multi, .multi => a.beq b
+  | _, _ => false
+
+/-! #### attributes = constructor parameters (`_get_constructor_kwargs`) -/
+
+inductive Attr | shape | dtype | name | minimum | maximum | numValues
+  deriving DecidableEq, Repr
+
+inductive AttrVal
+  | shape (s : List Nat) | dtype (d : DType) | name (n : String)
+  | arr (sh : List Nat) (data : List Rat) | nat (n : Nat) | natArr (sh : List Nat) (nv : List Nat)
+  | absent
+  deriving DecidableEq, Repr
+
+def Kw.attr : Kw → Attr
+  | .shape _ => .shape | .dtype _ => .dtype | .name _ => .name | .minimum .. => .minimum | .maximum .. => .maximum
+  | .numValues _ => .numValues | .numValuesArr .. => .numValues
+
+def Kw.val : Kw → AttrVal
+  | .shape s => .shape s | .dtype d => .dtype d | .name n => .name n | .minimum sh m => .arr sh m
+  | .maximum sh m => .arr sh m | .numValues n => .nat n | .numValuesArr sh nv => .natArr sh nv
+
+/-- the value of a constructor parameter (`absent` when the class has no such parameter: `shape`, `minimum`, `maximum`
+of the discrete kinds are derived from `num_values`) -/
+def get : Leaf → Attr → AttrVal
+  | array s _ _, .shape => .shape s | array _ d _, .dtype => .dtype d | array _ _ n, .name => .name n
+  | bounded s .., .shape => .shape s | bounded _ d .., .dtype => .dtype d | bounded _ _ n .., .name => .name n
+  | bounded _ _ _ ms m _ _, .minimum => .arr ms m | bounded _ _ _ _ _ xs x, .maximum => .arr xs x
+  | discrete k _ _, .numValues => .nat k | discrete _ d _, .dtype => .dtype d | discrete _ _ n, .name => .name n
+  | multiDiscrete s nv _ _, .numValues => .natArr s nv | multiDiscrete _ _ d _, .dtype => .dtype d
+  | multiDiscrete _ _ _ n, .name => .name n
+  | _, _ => .absent
+
+/-! #### pickling: `__reduce__` returns the class and the POSITIONAL constructor arguments; unpickling calls
+`cls(*args)`, i.e. runs the constructor again -/
+
+/-- `__reduce__` -/
+def reduce : Leaf → Kind × List AttrVal
+  | array s d n => (.array, [.shape s, .dtype d, .name n])
+  | bounded s d n ms m xs x => (.bounded, [.shape s, .dtype d, .arr ms m, .arr xs x, .name n])
+  | discrete k d n => (.discrete, [.nat k, .dtype d, .name n])
+  | multiDiscrete s nv d n => (.multi, [.natArr s nv, .dtype d, .name n])
+
+/-- `cls(*args)` with the positional signatures `Array(shape, dtype, name)`,
+`BoundedArray(shape, dtype, minimum, maximum, name)`, `DiscreteArray(num_values, dtype, name)`,
+`MultiDiscreteArray(num_values, dtype, name)`; `none` = TypeError / the constructor raises -/
+def construct : Kind → List AttrVal → Option Leaf
+  | .array, [.shape s, .dtype d, .name n] => if (array s d n).WF then some (array s d n) else none
+  | .bounded, [.shape s, .dtype d, .arr ms m, .arr xs x, .name n] =>
+    if (bounded s d n ms m xs x).WF then some (bounded s d n ms m xs x) else none
+  | .discrete, [.nat k, .dtype d, .name n] => if (discrete k d n).WF then some (discrete k d n) else none
+  | .multi, [.natArr s nv, .dtype d, .name n] =>
+    if (multiDiscrete s nv d n).WF then some (multiDiscrete s nv d n) else none
+  | _, _ => none
+
+/-- `pickle.loads(pickle.dumps(spec))` -/
+def unreduce (l : Leaf) : Option Leaf := construct l.reduce.1 l.reduce.2
 
 end Leaf
 
@@ -170,6 +306,31 @@ def Nested.generate (s : Nested) : NValue := s.map (fun (k, l) => (k, l.generate
 /-- nested `__eq__` (same child names): children pairwise equal -/
 def Nested.beq (a b : Nested) : Bool :=
   a.map (·.1) == b.map (·.1) && (List.zipWith (fun (x : String × Leaf) (y : String × Leaf) => x.2.beq y.2) a b).all id
+
+/-! ### `Spec.replace(**kwargs)` of a nested spec: `dict_copy = deepcopy(self._specs); dict_copy.update(kwargs);
+Spec(self._constructor, self.name, **dict_copy)`.  One level of structure is explicit: the dict of children (insertion
+order), each child being a leaf (`[("", leaf)]`) or the flattened content of a nested spec. -/
+
+structure Node where
+  name : String
+  children : List (String × Nested)
+  deriving DecidableEq, Repr
+
+/-- `dict.__setitem__`: an existing key keeps its position -/
+def dictSet {β : Type} : List (String × β) → String × β → List (String × β)
+  | [], kv => [kv]
+  | (k, v) :: rest, kv => if k = kv.1 then (k, kv.2) :: rest else (k, v) :: dictSet rest kv
+
+def Node.replace (n : Node) (kws : List (String × Nested)) : Node :=
+  { name := n.name, children := kws.foldl dictSet n.children }
+
+def Node.child (n : Node) (k : String) : Option Nested := n.children.lookup k
+
+def joinPath (k p : String) : String := if p = "" then k else k ++ "." ++ p
+
+/-- the flattened view used by `validate` / `generate_value` / `==` -/
+def Node.flatten (n : Node) : Nested :=
+  n.children.flatMap (fun kc => kc.2.map (fun pl => (joinPath kc.1 pl.1, pl.2)))
 
 /-! ### gym spaces and dm_env specs converted from a leaf spec -/
 
